@@ -292,7 +292,7 @@ fn lifecycle_cmd(a: &Args) {
         cfg.n_res = rng.gen_range(2..=base.n_res.max(2));
         let degenerate = rng.gen_bool(0.05);
         shredh::record::set_no_pool(rng.gen_bool(if degenerate { 0.5 } else { 0.03 }));
-        let prog = if degenerate { shredh::prog::gen_degenerate(&mut rng) } else { gen_prog(&mut rng, &cfg, 0, "") };
+        let prog = if degenerate { shredh::prog::gen_degenerate(&mut rng, true) } else { gen_prog(&mut rng, &cfg, 0, "") };
         let mut res = Vec::new();
         prog.resources(&mut res);
         #[cfg(feature = "parallel")]
@@ -481,7 +481,12 @@ fn rendezvous_cmd(a: &Args) {
         for ctxname in contexts {
             let hints = hint_sets.choose(&mut rng).unwrap().clone();
             let extra = *[0usize, 1, 3].choose(&mut rng).unwrap();
-            if (ctxname == "default_built_on_worker" && cores < width) || (ctxname == "default" && cores < width)
+            // (batch_nested: a batch two levels down runs on the default pool that was created for its parent builder,
+            // not on the pool given to the outermost builder - Pool.tla, the code's named deviation; what counts for
+            // it is the number of cores)
+            if (ctxname == "batch_nested" && cores < width)
+                || (ctxname == "default_built_on_worker" && cores < width)
+                || (ctxname == "default" && cores < width)
                 || (ctxname == "default_outer_batch" && cores < width + 1)
                 || (ctxname == "default_neighbour" && cores.min(wmax) != width)
             {
@@ -502,7 +507,7 @@ fn rendezvous_cmd(a: &Args) {
                 for _ in 0..reps {
                     rv.reset();
                     rv.log.lock().unwrap().clear();
-                    evs.push(json!({"ev":"rvbegin","w":width,"pool": if ctxname.starts_with("default") { cores } else { psize },"ctx":ctxname,
+                    evs.push(json!({"ev":"rvbegin","w":width,"pool": if ctxname.starts_with("default") || ctxname == "batch_nested" { cores } else { psize },"ctx":ctxname,
                                     "stages":stages,"width":wd,"hints":hints}));
                     match ctxname {
                         "user" | "user_par" | "default" | "foreign" => {
